@@ -9,11 +9,17 @@ correspondence:  scratch exp2python on generated schemas, py_compile + import ag
 oracle:          the statement itself on the implementation's output: exit 0, one module, compiles, imports, one class per
                  entity with bases = declared supertypes in order and constructor = `m_c18 spec` (Part 21 order), one
                  definition per defined type with its underlying type / items / members
+bodies:          vlib/c18_bodies.py — derived-attribute getters and WHERE-rule methods over a typed expression fragment:
+                 the module compiles, every getter / rule method gives the value ISO 10303-11 gives the expression
+                 (`m_c18 spec`, lean/StepModel/GenPyBody.lean `Spec.Body.eval`) on instances with values of the declared types;
+                 correspondence: the tree Python's own parser reads in each emitted right-hand side (harness/h_pybody.py)
+                 and every value = `m_c18 model` (`Body.read`, `Body.pyEval`)
 """
 import json, os, re, subprocess, sys, time
 from concurrent.futures import ThreadPoolExecutor
 from vlib import build as B
 from vlib import schema_gen_py18 as G
+from vlib import c18_bodies as CB
 
 HERE = os.path.dirname(os.path.abspath(__file__))
 VERIF = os.path.dirname(HERE)
@@ -574,9 +580,14 @@ def run(ctx):
         "hand-written model lean/StepModel/GenPy.lean of LIBdescribe_entity / TYPEprint_descriptions (structure, names, order — not the bodies of emitted methods)",
         "harness/h_pygen.py (py_compile, import, inspect.signature/__bases__), vlib/schema_gen_py18.py (what it does not generate is not compared)",
         "CPython's compiler and import system (\"Python can compile and import the module\" is observed, not proved)",
+        "hand-written model lean/StepModel/GenPyBody.lean of ATTRIBUTE_INITIALIZER*__out / WHEREPrint composed with Python's reading of the text "
+        "(tied by Python's ast on every generated expression), harness/h_pybody.py, vlib/expr_gen_py18.py, vlib/c18_bodies.py",
     ]
     ctx.assumptions += ["single-schema inputs; attribute names unique per schema; identifiers lower case (EXPRESS folds case)",
-                        "method bodies (property setters, derived-attribute evaluation, WHERE rules, functions) are outside the model"]
+                        "bodies: derived-attribute getters and WHERE-rule methods over integer literals, TRUE/FALSE, attribute references, NOT, unary minus, "
+                        "+ - *, value comparisons on INTEGER, AND OR XOR = <> on BOOLEAN are modelled; property setters, functions, global rules, "
+                        "every other expression form (aggregates, function calls, queries, strings, reals, DIV MOD / **, LOGICAL UNKNOWN) are not "
+                        "(string / BINARY / REAL literals and DIV are searched by the oracle only)"]
     fallback_generated()
     proof_ok = ctx.lean("StepModel.Props.C18", exes=["m_c18"], extractors=EXTRACTORS)
     if not os.path.exists(ctx.model_exe("m_c18")):
@@ -608,16 +619,24 @@ def run(ctx):
     if os.path.exists(hang):
         multi.insert(0, (open(hang).read(), ["s_bebe", "s_ne"]))
     run_multi(ctx, run_.b, multi)
+    CB.run_bodies(ctx, run_.b, ctx.model_exe("m_c18"))
     ctx.sample({"schema": all_s[-1].express(), "introspection": all_r[-1][2]["line"][:600]})
     ctx.cov["rule"] = ("generated single-schema EXPRESS files: 1-9 entities with single/multiple/diamond supertypes, explicit/optional/"
                        "derived/inverse attributes typed by simple, defined, entity and aggregate types; defined types of every body kind "
                        "(simple, BOOLEAN, renamed, ENUMERATION, SELECT, 1-D aggregate); 15-60% of identifiers drawn from Python keywords/"
-                       "builtins; supertype orders Python accepts in all batches but `random-any-supertype-order`; plus fixed shapes (diamond, shallow-before-deep, every keyword as entity/attribute/enum item/type name)")
+                       "builtins; supertype orders Python accepts in all batches but `random-any-supertype-order`; plus fixed shapes (diamond, shallow-before-deep, every keyword as entity/attribute/enum item/type name); "
+                       "bodies: one entity with 1-3 INTEGER and 0-2 BOOLEAN attributes (20% keyword names), 1-3 derived attributes and 0-2 WHERE rules "
+                       "(labels partly keywords / missing) over random well-typed expressions of depth 1-4, 6 random value assignments each, plus fixed "
+                       "bodies (right-nested same operators, keyword attributes and labels, DIV, string / BINARY / REAL literals)")
 
 
 def replay(ctx, path):
     d = json.load(open(path))
     r = d.get("replay", d)
+    if "body" in r:
+        ctx.lean("StepModel.Props.C18", exes=["m_c18"], extractors=EXTRACTORS)
+        CB.run_bodies(ctx, Runner(ctx).b, ctx.model_exe("m_c18"), only=CB.from_obj(r["body"]), only_envs=r.get("envs"))
+        return
     s = from_obj(r["model"])
     ctx.lean("StepModel.Props.C18", exes=["m_c18"], extractors=EXTRACTORS)
     run_ = Runner(ctx)
